@@ -13,6 +13,7 @@ re-slice outside `[0, len)` is the outcome `.panic`.  All theorems quantify over
 -/
 import Mqtt.Proofs.CodecWire
 import Mqtt.Proofs.XlateVarint
+import Mqtt.Proofs.XlateHeader
 
 set_option linter.unusedSimpArgs false
 set_option maxRecDepth 8192
@@ -89,5 +90,19 @@ theorem C04_Uvarint_is_source (buf : List UInt8) :
   ⟨Mqtt.Proofs.XlateVarint.uvarint_is_source buf, Mqtt.Proofs.XlateVarint.uvarint_is_source_val buf⟩
 
 example : Mqtt.Generated.Xlate.Binary.Uvarint [0xc1, 0x02, 0xff] = (321, 2) := by decide
+
+/-- `header.decode(src)` is the model's `Hdr.decode` on every byte string (`decToRes`: the model's
+error ⇒ an error return; the model's `(header, n)` ⇒ `n`, a nil error and a receiver with exactly the
+model's remaining length, type/flags byte and decoding buffer; the model's `.panic` ⇒ a panic, and
+neither occurs: `XlateHeader.header_decode_returns`).  `_partial`: `mtypeflags` holds at most one byte
+(`Type`, `SetType` and `decode` are the only code that assigns it, always one byte); the alias flag
+`tfInBuf` of the model has no counterpart in the translation. -/
+theorem C04_header_decode_is_source_partial (h : Mqtt.Generated.Xlate.Message.header)
+    (h1 : h.mtypeflags.length ≤ 1) (src : List UInt8) :
+    Mqtt.Proofs.XlateHeader.decToRes h (Mqtt.Generated.Xlate.Message.header.decode h src)
+      (Hdr.decode (Mqtt.Proofs.XlateCodec.hdrOf h) src) ∧
+    Hdr.decode (Mqtt.Proofs.XlateCodec.hdrOf h) src ≠ .panic :=
+  ⟨Mqtt.Proofs.XlateHeader.header_decode_is_source h h1 src,
+   (Mqtt.Proofs.XlateHeader.header_decode_returns h h1 src).1⟩
 
 end Mqtt.Properties.C04
